@@ -609,6 +609,25 @@ def rule_embed_sources(check, model, rules):
             else:
                 check.violation(rules['arith'], site(None, dep[-1].node), 'depth maps combined from the wrong operands: %s' % show(val)[:200],
                                 key=key, guards=gtext)
+        elif val[0] == 'D' and val in model.interp.obj_init:
+            # a dict display/constructor filled from one side's depths and then updated with the other's
+            init = model.interp.obj_init.get(val)
+            org = set(o for o in _origins(model, init) if o[1] == 5)
+            for e in p.effects:
+                if e.kind == 'mut' and e.target in (val, ('S', src, K('+depths'))) and e.op in ('update', 'setitem') and e.args:
+                    for a_ in e.args:
+                        org |= set(o for o in _origins(model, a_) if o[1] == 5)
+            sides_ = set(o[0] for o in org)
+            if sides_ >= set(['outer', 'inner']):
+                check.violation(rules['arith'], site(None, dep[-1].node), "the two '+depths' maps are combined by overwriting (dict construction/update), "
+                                "not by keeping the smaller depth (merge_depths): a callable reached through both signatures is recorded at the depth "
+                                "of whichever map is applied last", key=key, guards=gtext, effect=show(init)[:160],
+                                witness="forwarding o -> m -> g and o -> g: g must be recorded at depth 1, not 2")
+            elif sides_:
+                check.violation(rules['arith'], site(None, dep[-1].node), "'+depths' is built from the %s map only" % sorted(sides_)[0], key=key,
+                                guards=gtext, effect=show(init)[:160], witness="embed(a, b).sources['+depths'] must list the callables of a and b")
+            else:
+                check.inconclusive(rules['arith'], site(None, dep[-1].node), "'+depths' value not understood: %s" % show(init)[:200], key=key)
         else:
             check.inconclusive(rules['arith'], site(None, dep[-1].node), "'+depths' value not understood: %s" % show(val)[:200], key=key)
     check.floor(rules['union'], 'paths of _embed', n, 10)
